@@ -166,7 +166,10 @@ Definition step (v : cvariant) (s : st) (e : ev) : option st :=
   | LoopRegister id =>
       if holding_is s id && (negb (strict_window v) || is_up s) && negb (mem_id id (inflight s)) then
         match lookup id (calls s) with
-        | Some c => Some (set_inflight (set_calls s (update id (set_registered c) (calls s))) ((id, attempts c) :: inflight s))
+        | Some c =>
+            (* a request is registered once per take: the loop registers, writes, and goes back to its select *)
+            if registered c then None
+            else Some (set_inflight (set_calls s (update id (set_registered c) (calls s))) ((id, attempts c) :: inflight s))
         | None => None end
       else None
   | LoopSent id ok =>
